@@ -91,7 +91,11 @@ int main(void)
 #ifdef HDRDMG
         if (i == HDRDMG) {
             /* header field edit, re-sealed: the metadata CRC of the edited header is again the stored value */
+#ifdef HDRVAL
+            uint32_t v = (uint32_t)(HDRVAL);   /* value enumerated by the driver: keeps the validation verdict concrete for symex */
+#else
             uint32_t v = vin_u32();
+#endif
 #if HDRFIELD == 0      /* idx outside 0..k+m-1 */
             ASSUME(v >= (uint32_t)N);
             b[0] = (uint8_t)v; b[1] = (uint8_t)(v >> 8); b[2] = (uint8_t)(v >> 16); b[3] = (uint8_t)(v >> 24);
